@@ -251,6 +251,43 @@ def _havoc_value(name, v, spec):
     raise OutOfReach(f"cannot havoc loop-assigned local '{name}' of type {type(v).__name__}; give types= in the loop contract")
 
 
+def _fresh_only_pre(c, spec):
+    """`spec.fresh_only` (optional attribute, subset of modifies): heap fields the loop body writes only on
+    objects it allocates itself.  Their havoc keeps every object that existed at loop entry; loop_back
+    checks that the body respects it (additive: loops without the attribute are untouched)."""
+    out = []
+    for key in getattr(spec, "fresh_only", ()) or ():
+        key = tuple(key)
+        ty = c.heap.tys.get(key)
+        if ty is None:
+            ci = REG.by_name.get(key[0])
+            ty = (ci.fields.get(key[1]) or ci.ghost.get(key[1])) if ci else None
+        if ty is None:
+            raise SpecError(f"loop contract: unknown fresh_only field {key}")
+        out.append((key, ty, c.heap.array(key, ty), c.heap.alloc))
+    return out
+
+
+def _fresh_only_post(c, lp, fo):
+    for key, ty, old_arr, alloc0 in fo:
+        new_arr = c.heap.array(key, ty)
+        r = z3.Int("lp_fo_r")
+        c.heap.st.arrays[key] = z3.Lambda([r], z3.If(r <= alloc0, z3.Select(old_arr, r), z3.Select(new_arr, r)))
+    lp.fo_alloc = c.heap.alloc
+
+
+def _fresh_only_check(c, lp):
+    from .sym import mk_bool
+    for key in getattr(lp.spec, "fresh_only", ()) or ():
+        key = tuple(key)
+        pre, now = lp.pre_arrays.get(key), c.heap.st.arrays.get(key)
+        if pre is None or now is None or pre.eq(now):
+            continue
+        r = c.fresh("lp_fo_sk", z3.IntSort())
+        c.oblige(f"loop{lp.key[2]}:{lp.key[1]}/fresh-only:{key[0]}.{key[1]}",
+                 mk_bool(z3.Implies(r <= lp.fo_alloc, z3.Select(now, r) == z3.Select(pre, r))), kind="loop")
+
+
 def loop_havoc(lp, names, locs):
     c = _c()
     spec = lp.spec
@@ -269,7 +306,9 @@ def loop_havoc(lp, names, locs):
             c.heap.st.arrays[key] = arr
             c.heap.st.key_epoch[key] = ep
     else:
+        fo = _fresh_only_pre(c, spec)
         c.heap.havoc(keys=set(spec.modifies)) if spec.modifies else None
+        _fresh_only_post(c, lp, fo)
     vals = []
     newlocs = dict(locs)
     for n in names:
@@ -292,6 +331,30 @@ def loop_havoc(lp, names, locs):
 
 def _t(i):
     return i.t if isinstance(i, SymInt) else z3.IntVal(i)
+
+
+def cut_wanted(it):
+    """False when the iterable has a concrete length (then CPython simply runs the loop)"""
+    if isinstance(it, (list, tuple)):
+        return False
+    if isinstance(it, SymList):
+        n = z3.simplify(it._len())
+        if z3.is_int_value(n):
+            return False
+        # not syntactically concrete: does the path condition fix the length to a small value?
+        c = _c()
+        s = c.solver
+        if s.check() == z3.sat:
+            k = s.model().eval(n, model_completion=True)
+            if z3.is_int_value(k) and 0 <= k.as_long() <= SymList.ITER_CAP:
+                s.push()
+                s.add(n != k)
+                fixed = s.check() == z3.unsat
+                s.pop()
+                if fixed:
+                    return False
+        return True
+    return True
 
 
 def for_more(lp):
@@ -334,6 +397,7 @@ def loop_back(lp, locs):
         pre = lp.pre_arrays.get(key)
         if (pre is not None and not pre.eq(arr)) or (pre is None and not z3.is_const(arr)):
             raise SpecError(f"loop {lp.key}: body writes heap field {key} not listed in modifies")
+    _fresh_only_check(c, lp)
     if lp.seq is not None:
         lp.i = lp.i + 1
     if lp.mode == "set":
